@@ -313,3 +313,47 @@ Example cinv_nonvacuous :
   NoDup (map t_id (tasks st)) /\ guards st 1 = 1 /\ guards st 2 = 1 /\ chain 4 st 2 = [2; 1] /\
   is_loading 4 (run_state true st [Go 2]) 2 = true /\ is_loading 4 (run_state true st [Go 2; Go 1; Go 1]) 2 = false.
 Proof. cbn. repeat split; try reflexivity. repeat constructor; cbn; intuition discriminate. Qed.
+
+(* use_is_loading_global (what the blocking render waits on): true exactly while some unfinished task holds a guard of a
+   boundary whose counter is alive *)
+Lemma guards_pos st s :
+  Nat.ltb 0 (guards st s) = true <-> exists ti, In ti (tasks st) /\ holds s ti = true /\ pendingb st ti = true.
+Proof.
+  unfold guards. split.
+  - intros H. apply Nat.ltb_lt in H.
+    destruct (filter (fun ti => holds s ti && pendingb st ti) (tasks st)) as [|ti l] eqn:E; [cbn in H; lia|].
+    assert (Hin : In ti (filter (fun ti => holds s ti && pendingb st ti) (tasks st))) by (rewrite E; left; reflexivity).
+    apply filter_In in Hin. destruct Hin as [Hin Hb]. apply andb_true_iff in Hb. exists ti. tauto.
+  - intros [ti [Hin [Hh Hp]]]. apply Nat.ltb_lt.
+    assert (Hf : In ti (filter (fun ti => holds s ti && pendingb st ti) (tasks st))).
+    { apply filter_In. split; [exact Hin|]. rewrite Hh, Hp. reflexivity. }
+    destruct (filter (fun ti => holds s ti && pendingb st ti) (tasks st)); [destruct Hf | cbn; lia].
+Qed.
+
+Theorem global_loading_iff st :
+  CInv st ->
+  (global_loading st = true <->
+   exists s ti, is_sus_scope st s = true /\ counter_alive st s = true /\
+                In ti (tasks st) /\ holds s ti = true /\ pendingb st ti = true).
+Proof.
+  intros HI. unfold global_loading. rewrite existsb_exists. split.
+  - intros [sc [Hin Hb]]. apply andb_true_iff in Hb. destruct Hb as [Hb Hc]. apply andb_true_iff in Hb. destruct Hb as [Hs Ha].
+    assert (Hsus : is_sus_scope st (s_id sc) = true).
+    { unfold is_sus_scope. apply existsb_exists. exists sc. split; [exact Hin|]. rewrite Hs, Nat.eqb_refl. reflexivity. }
+    rewrite (HI _ Hsus Ha) in Hc. apply guards_pos in Hc. destruct Hc as [ti Hti].
+    exists (s_id sc), ti. tauto.
+  - intros [s [ti [Hsus [Ha Hti]]]].
+    unfold is_sus_scope in Hsus. apply existsb_exists in Hsus. destruct Hsus as [sc [Hin Hb]].
+    apply andb_true_iff in Hb. destruct Hb as [Hs He]. apply Nat.eqb_eq in He. subst s.
+    exists sc. split; [exact Hin|]. rewrite Hs, Ha. cbn.
+    assert (Hsus : is_sus_scope st (s_id sc) = true).
+    { unfold is_sus_scope. apply existsb_exists. exists sc. split; [exact Hin|]. rewrite Hs, Nat.eqb_refl. reflexivity. }
+    rewrite (HI _ Hsus Ha). apply guards_pos. exists ti. exact Hti.
+Qed.
+
+Example global_loading_nonvacuous :
+  let st := fst (init [ASus 1 [ATask 1 1]; AScope 9 [ASus 3 [ATask 3 2]]]) in
+  global_loading st = true /\ global_loading (run_state true st [Go 1]) = true /\
+  global_loading (run_state true st [Go 1; DisposeS 9]) = false /\
+  global_loading (run_state true st [DisposeS 9; Go 1]) = false.
+Proof. cbn. repeat split; reflexivity. Qed.
